@@ -309,6 +309,42 @@ pub fn resolver(cex: &Value) -> Result<String, String> {
       if storage_block_on(r.resolve(&CoreDID::parse("did:jwx:abc").unwrap())).is_ok() {
         out.push("[jwk] did:jwx resolved by the did:jwk handler".into());
       }
+      // the method carries exactly the key the DID encodes: optional members survive, a private key is refused
+      for json in [
+        r#"{"kty":"OKP","crv":"Ed25519","x":"11qYAYKxCrfVS_7TyWQHOg7hcvPapiMlrwIaaPcHURo"}"#,
+        r#"{"kty":"OKP","crv":"Ed25519","x":"11qYAYKxCrfVS_7TyWQHOg7hcvPapiMlrwIaaPcHURo","kid":"k1","alg":"EdDSA","use":"sig","key_ops":["verify"]}"#,
+        r#"{"kty":"OKP","crv":"Ed25519","x":"11qYAYKxCrfVS_7TyWQHOg7hcvPapiMlrwIaaPcHURo","x5u":"https://example.com/cert","x5t":"abc","x5t#S256":"def","x5c":["MIIB"]}"#,
+        r#"{"kty":"EC","crv":"P-256","x":"f83OJ3D2xF1Bg8vub9tLe1gHMzV76e8Tus9uPHvRVEU","y":"x_FEzRu9m36HLN_tue659LNpXW6pCyStikYjKIWI5a0","kid":"ec"}"#,
+      ] {
+        let want: identity_jose::jwk::Jwk = serde_json::from_str(json).unwrap();
+        let text = format!("did:jwk:{}", identity_jose::jwu::encode_b64(json));
+        let did: DIDJwk = match text.parse() {
+          Ok(d) => d,
+          Err(e) => {
+            out.push(format!("[jwk] {text} refused: {e}"));
+            continue;
+          }
+        };
+        match storage_block_on(r.resolve(&did)) {
+          Ok(doc) => {
+            let ms: Vec<_> = doc.methods(None);
+            let key = ms.first().and_then(|m| m.data().public_key_jwk().cloned());
+            if ms.len() != 1 || key.as_ref() != Some(&want) || doc.id().as_str() != text || ms[0].id().did().as_str() != text {
+              out.push(format!("[jwk] expansion of a did:jwk encoding {json}: {} method(s), key {:?}", ms.len(), key.map(|k| serde_json::to_string(&k).unwrap())));
+            }
+          }
+          Err(e) => out.push(format!("[jwk] did:jwk encoding {json} does not resolve: {e}")),
+        }
+      }
+      {
+        let json = r#"{"kty":"OKP","crv":"Ed25519","x":"11qYAYKxCrfVS_7TyWQHOg7hcvPapiMlrwIaaPcHURo","d":"nWGxne_9WmC6hEr0kuwsxERJxWl7MmkZcDusAxyuf2A"}"#;
+        let text = format!("did:jwk:{}", identity_jose::jwu::encode_b64(json));
+        if let Ok(did) = text.parse::<DIDJwk>() {
+          if let Ok(doc) = storage_block_on(r.resolve(&did)) {
+            out.push(format!("[jwk] a did:jwk encoding a private key expands to a document with {} method(s)", doc.methods(None).len()));
+          }
+        }
+      }
       let mut st: SingleThreadedResolver<CoreDocument> = SingleThreadedResolver::new();
       st.attach_did_jwk_handler();
       match storage_block_on(st.resolve(&did)) {
